@@ -877,6 +877,7 @@ impl Prop for C16Static {
     }
     fn check(&self, case: &C16StaticCase, lane: usize, st: &mut Stats) -> Result<(), Fail> {
         use shred::{par, seq};
+        same_named_leaves()?;
         st.class(&format!("shape_{}", case.shape));
         let r = match case.shape % 10 {
             8 => run_static_unit(
@@ -936,4 +937,63 @@ impl Prop for C16Static {
         st.nontrivial(case, || json!({"shape": case.shape}));
         Ok(())
     }
+}
+
+
+/// Two leaf types that are both called `Leaf` (declared in sibling blocks, as macro-generated code
+/// does) with different static system data: a node over them reports the union of what each of
+/// them really declares, and a third same-named leaf that conflicts is rejected.
+fn same_named_leaves() -> Result<(), Fail> {
+    use crate::res::Slot;
+    let a = {
+        struct Leaf;
+        impl<'a> System<'a> for Leaf {
+            type SystemData = SWrite<'a, Slot<0>>;
+            fn run(&mut self, _: Self::SystemData) {}
+        }
+        Leaf
+    };
+    let b = {
+        struct Leaf;
+        impl<'a> System<'a> for Leaf {
+            type SystemData = SWrite<'a, Slot<1>>;
+            fn run(&mut self, _: Self::SystemData) {}
+        }
+        Leaf
+    };
+    let c = {
+        struct Leaf;
+        impl<'a> System<'a> for Leaf {
+            type SystemData = (SWrite<'a, Slot<2>>, SWrite<'a, Slot<1>>);
+            fn run(&mut self, _: Self::SystemData) {}
+        }
+        Leaf
+    };
+    let node = catch_unwind(AssertUnwindSafe(|| Par::new(a).with(b))).map_err(|p| {
+        Fail::new(format!(
+            "Par::with panicked for two same-named leaf types that write different resources: {}",
+            panic_msg(&p)
+        ))
+    })?;
+    let (mut r, mut w) = (vec![], vec![]);
+    node.reads(&mut r);
+    node.writes(&mut w);
+    let want: BTreeSet<ResourceId> = [ResourceId::new::<Slot<0>>(), ResourceId::new::<Slot<1>>()].into_iter().collect();
+    let got: BTreeSet<ResourceId> = w.into_iter().collect();
+    if !r.is_empty() || got != want {
+        return Err(Fail::new(format!(
+            "a par node over two leaf types that are both called `Leaf` (sibling blocks) reports {} reads and writes {:?}, the leaves declare no reads and the writes {:?}",
+            r.len(),
+            got,
+            want
+        )));
+    }
+    // (debug assertions are on in every build of the harness)
+    let rejected = catch_unwind(AssertUnwindSafe(|| node.with(c))).is_err();
+    if !rejected {
+        return Err(Fail::new(
+            "a third leaf type called `Leaf` that writes a resource a sibling writes was accepted by Par::with without a panic",
+        ));
+    }
+    Ok(())
 }
